@@ -57,7 +57,7 @@ class Prop:
             "evaluation.  non-trivial = at least 3 value-returning requests with at least one non-zero, non-sentinel "
             "result that needed >= 2 terms; distinct = distinct sha256 of the event log")
     probes = ["k2", "k3", "k4", "herm_adjpair", "herm_sandwich", "herm_nonadjoint", "domain_float", "domain_tracer",
-              "result_one", "result_zero", "result_value", "multi_term_result", "discipline_checked", "discipline_checked_3plus", "highest_order_checked", "highest_order_truth_checked",
+              "result_one", "result_zero", "result_value", "multi_term_result", "default_operator", "discipline_checked", "discipline_checked_3plus", "highest_order_checked", "highest_order_truth_checked",
               "op_array", "op_view", "repeat_cached", "op_mul", "op_rmul", "known0_pattern", "view_factor", "twin_product", "same_object_factors", "late_eval_factor", "tiny_scale", "dynamic_discipline_checked", "factor_chain_dep", "family_R", "recurrent_W1", "recurrent_W2", "recurrent_W3", "recurrent_compared", "known_finding_signature_hits"]
     components_real = ["pymablock.series.cauchy_dot_product, product_by_order, BlockSeries"]
     components_stub = ["factor series eval callbacks (simulator-owned tables, call log)", "element multiplication wrapper (logging)",
@@ -340,6 +340,10 @@ class Prop:
         cap = {1: 4, 2: 3, 3: 2}[ninf]
         case = {"K": K, "ninf": ninf, "dims": dims, "herm": herm, "domain": domain, "op": opname, "factors": factors,
                 "sizes": [r.choice([1, 2]) for _ in range(3)], "cap": cap}
+        if domain == "float" and r.random() < 0.3:
+            # the documented default: no operator given (matrix multiplication), elements of the array types the library itself uses
+            case["default_op"] = True
+            case["elem"] = r.choice(["ndarray", "csr_array", "csr_matrix", "csr_array"])
         if herm == "none" and r.random() < 0.1:
             # the same caller series used for two (or all) factors of the product: cauchy_dot_product(A, A[, A])
             dd = dims[0]
@@ -409,7 +413,12 @@ class Prop:
         def fresh_value(k, idx, rg, rows, cols):
             if domain == "tracer":
                 return T.gen(f"{NAMES[k]}{list(idx)}")
-            return (rg.normal(size=(rows, cols)) + 1j * rg.normal(size=(rows, cols))) * 10.0 ** (-case["factors"][k].get("scale", 0))
+            v = (rg.normal(size=(rows, cols)) + 1j * rg.normal(size=(rows, cols))) * 10.0 ** (-case["factors"][k].get("scale", 0))
+            if case.get("elem", "ndarray") != "ndarray":
+                from scipy import sparse
+
+                v = getattr(sparse, case["elem"])(v)
+            return v
 
         def adj(v):
             if v is zero or v is one:
@@ -604,7 +613,11 @@ class Prop:
             for (i, j, n) in twin["pre"]:
                 if i < dims[0] and j < dims[-1]:
                     P2[(i, j, *n)]
-        P = cauchy_dot_product(*factors, operator=oper, hermitian=declared)
+        if case.get("default_op"):
+            bump("default_operator")
+            P = cauchy_dot_product(*factors, hermitian=declared)
+        else:
+            P = cauchy_dot_product(*factors, operator=oper, hermitian=declared)
         if twin and P2 is None and case["domain"] == "tracer":
             P2 = cauchy_dot_product(*factors, operator=base2)
         violation = None
